@@ -19,6 +19,7 @@ def run(db, chk):
     dedup_key_rule(db, chk)
     partial_name_rule(db, chk)
     partial_name_single_match_rule(db, chk)
+    destination_prefix_table(db, chk)
     fns = [f for f in db.by_crate["gix_refspec"] if "::match_group::" in f.name and f.kind != "promoted"]
     chk.floor("match_group functions", len(fns), 20)
     nranges = 0
@@ -150,6 +151,26 @@ def partial_name_single_match_rule(db, chk):
         chk.ob("partial-name-maps-one-source", "match_remotes per-item loop@%d" % c.line, ok and bool(ranks),
                "partial-name specs go through the loop that pushes every matching item (%d partial-name test(s), %d minimum-by-rank call(s)): `main` maps refs/tags/main, refs/heads/main and refs/remotes/main at once, git maps only the first rule that matches" % (len(tests), len(ranks)),
                c.where(), key="partial-name-single|match_remotes")
+
+
+def destination_prefix_table(db, chk):
+    """a destination without `refs/` is completed like git's get_local_ref(): names starting with heads/, tags/ or remotes/ get `refs/` in
+    front, everything else `refs/heads/`.  The set of prefixes Needle::to_bstr_replace tests in its PartialName arm (constants handed to
+    starts_with) is compared with that table."""
+    f = db.one(r"^gix_refspec::match_group::util::Needle::<'a>::to_bstr_replace$")
+    fl = Flow(f)
+    got = set()
+    for c in f.calls():
+        if c.is_(r"::starts_with$|::starts_with_str$") and len(c.args) >= 2:
+            for r in fl.roots(c.args[1], stop_named=False):
+                if r[0] == "const" and isinstance(r[1], (bytes, str)):
+                    got.add(r[1] if isinstance(r[1], bytes) else r[1].encode())
+            if "bytes" in c.args[1]:
+                got.add(bytes.fromhex(c.args[1]["bytes"]))
+    want = {b"heads/", b"tags/", b"remotes/"}
+    chk.ob("partial-destination-prefix-table", "Needle::to_bstr_replace", got == want,
+           "destinations keep their own namespace for %s, git does so for %s: `main:heads/x` would be stored as refs/heads/heads/x" % (sorted(x.decode() for x in got), sorted(x.decode() for x in want)),
+           "%s:%d" % (f.file, f.line), key="dst-prefix-table|to_bstr_replace")
 
 
 def dedup_key_rule(db, chk):
